@@ -348,3 +348,267 @@ func (w *Workspace) structuralWriters(prop string) *FuncResult {
 	}
 	return res
 }
+
+// structuralC19: genesis coverage. For every custom module: (A) every function of the keeper that writes the raw
+// store (a "setter": it calls Store.Set) and has a caller outside genesis import is reachable from InitGenesis, and
+// (B) the table prefix it writes under is read in full (prefix iterator) by a function reachable from ExportGenesis.
+// A table that is written by message handlers or block hooks but not exported/imported is lost on export/import.
+func (w *Workspace) structuralC19() *FuncResult {
+	res := &FuncResult{Key: "custom modules: genesis coverage"}
+	mods := append(append([]string{}, customModules...), "jklmint")
+	for _, mod := range mods {
+		kp := w.ssaPkgs[modPath+"/x/"+mod+"/keeper"]
+		mp := w.ssaPkgs[modPath+"/x/"+mod]
+		if kp == nil || mp == nil {
+			res.Obls = append(res.Obls, structural("x/"+mod, "package_loaded", []string{"C19"}, false, "packages of module "+mod+" are not loaded"))
+			continue
+		}
+		var fns []*ssa.Function
+		seen := map[*ssa.Function]bool{}
+		var add func(fn *ssa.Function)
+		add = func(fn *ssa.Function) {
+			if fn == nil || seen[fn] || len(fn.Blocks) == 0 {
+				return
+			}
+			if strings.HasSuffix(w.prog.Fset.Position(fn.Pos()).Filename, "_test.go") {
+				return
+			}
+			seen[fn] = true
+			fns = append(fns, fn)
+			for _, a := range fn.AnonFuncs {
+				add(a)
+			}
+		}
+		for _, sp := range []*ssa.Package{kp, mp} {
+			for _, m := range sp.Members {
+				switch x := m.(type) {
+				case *ssa.Function:
+					add(x)
+				case *ssa.Type:
+					for _, t := range []types.Type{x.Type(), types.NewPointer(x.Type())} {
+						ms := w.prog.MethodSets.MethodSet(t)
+						for i := 0; i < ms.Len(); i++ {
+							if fn := w.prog.MethodValue(ms.At(i)); fn != nil && fn.Pkg == sp && fn.Synthetic == "" {
+								add(fn)
+							}
+						}
+					}
+				}
+			}
+		}
+		// per function: prefixes opened, writes, full reads, static callees
+		prefixes := map[*ssa.Function][]string{}
+		writes := map[*ssa.Function]bool{}
+		readsAll := map[*ssa.Function]bool{}
+		callees := map[*ssa.Function][]*ssa.Function{}
+		callers := map[*ssa.Function][]*ssa.Function{}
+		encodes := map[*ssa.Function][]string{}
+		decodes := map[*ssa.Function][]string{}
+		for _, fn := range fns {
+			top := fn
+			for top.Parent() != nil {
+				top = top.Parent()
+			}
+			for _, b := range fn.Blocks {
+				for _, ins := range b.Instrs {
+					ci, ok := ins.(ssa.CallInstruction)
+					if !ok {
+						continue
+					}
+					cc := ci.Common()
+					if cc.IsInvoke() {
+						switch cc.Method.Name() {
+						case "Set":
+							writes[top] = true
+						case "Iterator", "ReverseIterator":
+							readsAll[top] = true
+						case "MustMarshal", "Marshal", "MustUnmarshal", "Unmarshal":
+							// the record type stored in / decoded from the table
+							for _, a := range cc.Args {
+								if mi, ok := a.(*ssa.MakeInterface); ok {
+									t := mi.X.Type()
+									if pt, ok := t.Underlying().(*types.Pointer); ok {
+										t = pt.Elem()
+									}
+									if n, ok := t.(*types.Named); ok {
+										if strings.Contains(cc.Method.Name(), "Unmarshal") {
+											decodes[top] = append(decodes[top], n.Obj().Name())
+										} else {
+											encodes[top] = append(encodes[top], n.Obj().Name())
+										}
+									}
+								}
+							}
+						}
+						continue
+					}
+					callee := cc.StaticCallee()
+					if callee == nil {
+						continue
+					}
+					switch {
+					case callee.Name() == "KeyPrefix" && len(cc.Args) == 1:
+						if c, ok := cc.Args[0].(*ssa.Const); ok {
+							prefixes[top] = append(prefixes[top], constantString(c))
+						}
+					case callee.String() == "(github.com/cosmos/cosmos-sdk/store/prefix.Store).Set":
+						writes[top] = true
+					case callee.String() == "github.com/cosmos/cosmos-sdk/types.KVStorePrefixIterator" || callee.String() == "github.com/cosmos/cosmos-sdk/types.KVStoreReversePrefixIterator" ||
+						callee.String() == "(github.com/cosmos/cosmos-sdk/store/prefix.Store).Iterator":
+						readsAll[top] = true
+					}
+					if seen[callee] {
+						callees[top] = append(callees[top], callee)
+						callers[callee] = append(callers[callee], top)
+					}
+					// closures handed to iterator helpers run as part of the caller
+					for _, a := range cc.Args {
+						if mc, ok := a.(*ssa.MakeClosure); ok {
+							if cf, ok := mc.Fn.(*ssa.Function); ok && seen[cf] {
+								callees[top] = append(callees[top], cf)
+							}
+						}
+					}
+				}
+			}
+		}
+		reach := func(root *ssa.Function) map[*ssa.Function]bool {
+			out := map[*ssa.Function]bool{}
+			var visit func(fn *ssa.Function)
+			visit = func(fn *ssa.Function) {
+				if fn == nil || out[fn] {
+					return
+				}
+				out[fn] = true
+				for _, c := range callees[fn] {
+					visit(c)
+				}
+			}
+			visit(root)
+			return out
+		}
+		find := func(name string) *ssa.Function {
+			for _, sp := range []*ssa.Package{mp, kp} {
+				if fn := sp.Func(name); fn != nil {
+					return fn
+				}
+			}
+			// keeper method
+			for _, fn := range fns {
+				if fn.Name() == name && fn.Signature.Recv() != nil {
+					return fn
+				}
+			}
+			return nil
+		}
+		initFn, expFn := find("InitGenesis"), find("ExportGenesis")
+		if initFn == nil || expFn == nil {
+			res.Obls = append(res.Obls, structural("x/"+mod, "genesis_functions_found", []string{"C19"}, false, "InitGenesis/ExportGenesis not found"))
+			continue
+		}
+		fromInit, fromExp := reach(initFn), reach(expFn)
+		table := func(fn *ssa.Function, types []string) []string {
+			var out []string
+			for _, p := range prefixes[fn] {
+				t := ""
+				if len(types) > 0 {
+					t = types[0]
+				}
+				out = append(out, p+" ("+t+")")
+			}
+			return out
+		}
+		// tables read in full by ExportGenesis
+		exported := map[string]bool{}
+		for fn := range fromExp {
+			if readsAll[fn] {
+				for _, t := range table(fn, decodes[fn]) {
+					exported[t] = true
+				}
+			}
+		}
+		// tables written by genesis import, grouped by the accessor InitGenesis calls: an accessor that writes several
+		// tables from one element (primary entry + index) restores all of them when one of them is exported
+		imported := map[string]bool{}
+		for _, direct := range callees[initFn] {
+			var ts []string
+			anyExported := false
+			for fn := range reach(direct) {
+				if writes[fn] {
+					for _, t := range table(fn, encodes[fn]) {
+						ts = append(ts, t)
+						if exported[t] {
+							anyExported = true
+						}
+					}
+				}
+			}
+			for _, t := range ts {
+				imported[t] = true
+				if anyExported {
+					exported[t] = true
+				}
+			}
+		}
+		_ = fromInit
+		var setters []*ssa.Function
+		for _, fn := range fns {
+			if writes[fn] && fn.Parent() == nil && len(prefixes[fn]) > 0 {
+				setters = append(setters, fn)
+			}
+		}
+		sort.Slice(setters, func(i, j int) bool { return setters[i].String() < setters[j].String() })
+		done := map[string]bool{}
+		for _, st := range setters {
+			live := false
+			for _, c := range callers[st] {
+				if c != initFn && !fromInitOnly(c, initFn, callers) {
+					live = true
+				}
+			}
+			name := "x/" + mod + "/keeper." + relName(st)
+			for _, t := range table(st, encodes[st]) {
+				if !live {
+					res.Notes = append(res.Notes, fmt.Sprintf("%s writes table %s but has no caller outside genesis import: not live state", name, t))
+					continue
+				}
+				if done[t] {
+					continue
+				}
+				done[t] = true
+				tn := "x/" + mod + ": table " + t
+				res.Obls = append(res.Obls, structural(tn, "imported_by_InitGenesis", []string{"C19"}, imported[t],
+					fmt.Sprintf("table %s is written at run time (%s) but no accessor reachable from InitGenesis writes it: it is not restored on import", t, name)))
+				res.Obls = append(res.Obls, structural(tn, "exported_by_ExportGenesis", []string{"C19"}, exported[t],
+					fmt.Sprintf("table %s (written by %s) is not read in full and decoded by any function reachable from ExportGenesis: it is not exported", t, name)))
+			}
+		}
+	}
+	return res
+}
+
+// fromInitOnly: every path to c comes from InitGenesis (so c is itself part of genesis import)
+func fromInitOnly(c, initFn *ssa.Function, callers map[*ssa.Function][]*ssa.Function) bool {
+	seen := map[*ssa.Function]bool{}
+	var up func(fn *ssa.Function) bool
+	up = func(fn *ssa.Function) bool {
+		if fn == initFn {
+			return true
+		}
+		if seen[fn] {
+			return true
+		}
+		seen[fn] = true
+		cs := callers[fn]
+		if len(cs) == 0 {
+			return false
+		}
+		for _, x := range cs {
+			if !up(x) {
+				return false
+			}
+		}
+		return true
+	}
+	return up(c)
+}
